@@ -825,6 +825,11 @@ def inline_temporaries(fn: ast.AST, only: typing.Optional[set] = None, sigs: typ
             is_stable = stable(v)
             uses = [n for n in ast.walk(fn) if isinstance(n, ast.Name) and n.id == x and isinstance(n.ctx, ast.Load)]
             if not uses:
+                if (isinstance(v, ast.Lambda) or _is_name_pure(v)) and bound.get(x, 0) == 1 and not any(isinstance(n, (ast.Global, ast.Nonlocal)) and x in n.names for n in ast.walk(fn)):
+                    del seq[i]  # a function object / plain value bound to a name nobody reads
+                    if not seq:
+                        seq.append(ast.Pass())
+                    return True
                 continue
             # every use must come after the assignment in the same block (or nested in later statements of it)
             later = seq[i + 1:]
@@ -1352,6 +1357,26 @@ def _pure_value(e: ast.AST) -> bool:
     return all(isinstance(x, ok) for x in ast.walk(e)) and not any(_has_effect(x) for x in ast.walk(e))
 
 
+def fold_inplace_sort(fn: ast.AST) -> None:
+    """``x = [fresh list]`` ; ``x.sort(**kw)``  ->  ``x = sorted([fresh list], **kw)`` (list.sort and sorted are the same stable
+    sort; the list is fresh - a comprehension, display or ``list(..)`` call - so nobody else sees it being sorted in place)."""
+    for seq in list(_blocks(fn)):
+        k = 0
+        while k + 1 < len(seq):
+            a, b = seq[k], seq[k + 1]
+            k += 1
+            if not (isinstance(a, ast.Assign) and len(a.targets) == 1 and isinstance(a.targets[0], ast.Name)):
+                continue
+            fresh = isinstance(a.value, (ast.ListComp, ast.List)) or (isinstance(a.value, ast.Call) and isinstance(a.value.func, ast.Name) and a.value.func.id in ('list', 'sorted'))
+            if not fresh:
+                continue
+            x = a.targets[0].id
+            if isinstance(b, ast.Expr) and isinstance(b.value, ast.Call) and isinstance(b.value.func, ast.Attribute) and b.value.func.attr == 'sort' and isinstance(b.value.func.value, ast.Name) and b.value.func.value.id == x and not b.value.args and all(kw.arg in ('key', 'reverse') for kw in b.value.keywords) and not any(x in _names(kw.value) for kw in b.value.keywords):
+                a.value = ast.Call(func=ast.Name(id='sorted', ctx=ast.Load()), args=[a.value], keywords=b.value.keywords)
+                del seq[k]
+                k -= 1
+
+
 def split_tuple_assignments(fn: ast.AST) -> None:
     """``a, b = (A, B)`` is ``a = A`` ; ``b = B`` when no target is read by a later element (and nothing is starred)."""
     for seq in list(_blocks(fn)):
@@ -1441,6 +1466,37 @@ def split_versions(fn: ast.AST) -> None:
                     current = f'{name}__v{version + 1}'
                     top[k].id = current
                 version += 1
+
+
+def merge_phi_copies(fn: ast.AST) -> None:
+    """``if c: ..; y = E else: y = x`` (y bound nowhere else, x dead afterwards) is the conditional re-binding
+    ``if c: ..; x = E`` with y renamed to x."""
+    for seq in list(_blocks(fn)):
+        for k, st in enumerate(seq):
+            if not (isinstance(st, ast.If) and len(st.orelse) == 1 and st.body):
+                continue
+            a, b = st.body[-1], st.orelse[0]
+            if not (isinstance(a, ast.Assign) and isinstance(b, ast.Assign) and len(a.targets) == 1 and len(b.targets) == 1 and isinstance(a.targets[0], ast.Name) and isinstance(b.targets[0], ast.Name) and a.targets[0].id == b.targets[0].id and isinstance(b.value, ast.Name)):
+                continue
+            y, x = a.targets[0].id, b.value.id
+            if x == y:
+                continue
+            stores_y = [n for n in ast.walk(fn) if isinstance(n, ast.Name) and n.id == y and isinstance(n.ctx, (ast.Store, ast.Del))]
+            if len(stores_y) != 2 or y in _params(fn):
+                continue
+            inside = {id(n) for n in ast.walk(st)}
+            loads_y_outside = [n for n in ast.walk(fn) if isinstance(n, ast.Name) and n.id == y and isinstance(n.ctx, ast.Load) and id(n) not in inside]
+            after = {id(n) for s_ in _stmts_after(fn, st) for n in ast.walk(s_)}
+            if any(id(n) not in after for n in loads_y_outside):
+                continue
+            if any(isinstance(n, ast.Name) and n.id == x and id(n) in after for n in ast.walk(fn)):
+                continue  # x is still used afterwards: the two are different variables
+            if any(isinstance(n, ast.Name) and n.id == y for s_ in st.body[:-1] for n in ast.walk(s_)) or y in _names(st.test) or y in _names(a.value):
+                continue
+            a.targets[0].id = x
+            st.orelse = []
+            for n in loads_y_outside:
+                n.id = x
 
 
 def split_final_rebindings(fn: ast.AST) -> None:
@@ -1602,6 +1658,12 @@ class SignatureIndex:
         for simple, nodes in classes.items():
             for node in nodes:
                 self.by_name.setdefault(simple, []).append(self._ctor(node, classes, 0))
+        self.nested: dict = {}  # (outer class simple name, nested class simple name) -> constructor parameters
+        for mod in modules_list:
+            for qual, node in mod.defs.items():
+                if isinstance(node, ast.ClassDef) and '.' in qual:
+                    outer = qual.split('.')[-2]
+                    self.nested.setdefault((outer, node.name), []).append(self._ctor(node, classes, 0))
         # attribute names that are (re)bound anywhere outside a constructor: reading any other attribute twice gives the same
         # object, whatever is called in between
         self.rebound_attrs: set = set()
@@ -1716,6 +1778,8 @@ def positional_arguments(fn: ast.AST, sigs: typing.Optional[SignatureIndex], own
         if simple is None:
             continue
         cands = sigs.by_name.get(simple)
+        if owner and isinstance(f, ast.Attribute) and isinstance(f.value, ast.Name) and f.value.id in ('cls', 'self', owner) and len(sigs.nested.get((owner, f.attr), [])) == 1:
+            cands = sigs.nested[(owner, f.attr)]  # a class nested in the method's own class
         if not cands:
             continue
         # same-named callables: only those that know every keyword of this call can be meant
@@ -1847,12 +1911,14 @@ def normal_form(fn: ast.AST, sigs: typing.Optional[SignatureIndex] = None, owner
         boolean_algebra(node)
         loops_to_comprehensions(node)
         split_tuple_assignments(node)
+        fold_inplace_sort(node)
         unfold_for_else(node)
         unfold_generator_loops(node)
         sink_returns(node)
         flatten_conditionals(node)
         drop_tail_continues(node)
         split_rebound_parameters(node)
+        merge_phi_copies(node)
         split_versions(node)
         split_final_rebindings(node)
         split_arm_variables(node)
